@@ -524,6 +524,7 @@ type Case struct {
 	Type    *PT    `json:"type,omitempty"`       // kind 2
 	Value   *Val   `json:"value,omitempty"`      // kind 2
 	NT      *bool  `json:"nt,omitempty"`
+	Expect  *int   `json:"expect,omitempty"` // fixed witnesses: the outcome class the property demands
 }
 
 func classify(err error) int {
@@ -696,6 +697,9 @@ func (r *runner) run(c *Case) int {
 		}
 	}
 	cls := runTuple(c, ec)
+	if c.Expect != nil && cls != *c.Expect {
+		w.PropFail(fmt.Sprintf("fixed witness: EvaluateTupleCondition outcome class %d, the property demands %d (0 met, 1 not met, 3 type error)", cls, *c.Expect), c)
+	}
 	ev := rec.L(rec.I(3))
 	if c.EC && cls != 6 {
 		ev = runEvaluate(c, ec)
@@ -1349,7 +1353,7 @@ func genConvertCase(r *rec.Rand) *Case {
 	return &Case{Kind: 2, Type: &t, Value: &v}
 }
 
-// the witnesses of finding F8 (DESIGN.md section 8) and of the fraction rounding, always run
+// the witnesses of finding F8 (DESIGN.md section 8; repaired) and of the fraction rounding, always run first
 func fixedCases() []*Case {
 	var out []*Case
 	ci := &Cond{Name: "ci", Params: []Param{{N: "y", T: PT{K: tInt}}}, Via: "dsl",
@@ -1358,11 +1362,25 @@ func fixedCases() []*Case {
 		Expr: &Expr{T: eCmp, Op: 0, A: &Expr{T: eParam, S: "x"}, Bx: &Expr{T: eUint, I: "9223372036854775807"}}}
 	c1 := &Cond{Name: "c1", Params: []Param{{N: "y", T: PT{K: tInt}}}, Via: "dsl",
 		Expr: &Expr{T: eCmp, Op: 0, A: &Expr{T: eParam, S: "y"}, Bx: &Expr{T: eInt, I: "1"}}}
-	for _, v := range []Val{num(1e19), str("10000000000000000000"), num(1.8e19), num(3e19), str("9223372036854775808")} {
-		out = append(out, &Case{Kind: 1, Cond: ci, TName: "ci", EC: true, Req: Ctx{"y": v}, Stored: Ctx{}})
-		out = append(out, &Case{Kind: 1, Cond: cu, TName: "cu", EC: true, Req: Ctx{"x": v}, Stored: Ctx{}})
-		out = append(out, &Case{Kind: 1, Cond: cu, TName: "cu", EC: true, Req: Ctx{"x": num(1)}, Stored: Ctx{"x": v}})
+	// the witnesses of F8 (repaired by fd0d452): beyond int64 => type error; for uint the values
+	// up to 2^64-1 are themselves (so != MaxInt64: not met), beyond => type error
+	exp := func(i int) *int { return &i }
+	cmax := &Cond{Name: "cm", Params: []Param{{N: "x", T: PT{K: tUint}}}, Via: "dsl",
+		Expr: &Expr{T: eCmp, Op: 0, A: &Expr{T: eParam, S: "x"}, Bx: &Expr{T: eUint, I: "18446744073709551615"}}}
+	for _, wv := range []struct {
+		v    Val
+		uint int
+	}{{num(1e19), 1}, {str("10000000000000000000"), 1}, {num(1.8e19), 1}, {num(3e19), 3}, {str("9223372036854775808"), 1},
+		{str("18446744073709551616"), 3}, {num(-1e19), 3}} {
+		v := wv.v
+		out = append(out, &Case{Kind: 1, Cond: ci, TName: "ci", EC: true, Req: Ctx{"y": v}, Stored: Ctx{}, Expect: exp(3)})
+		out = append(out, &Case{Kind: 1, Cond: cu, TName: "cu", EC: true, Req: Ctx{"x": v}, Stored: Ctx{}, Expect: exp(wv.uint)})
+		out = append(out, &Case{Kind: 1, Cond: cu, TName: "cu", EC: true, Req: Ctx{"x": num(1)}, Stored: Ctx{"x": v}, Expect: exp(wv.uint)})
 	}
+	out = append(out, &Case{Kind: 1, Cond: cmax, TName: "cm", EC: true, Req: Ctx{"x": str("18446744073709551615")}, Stored: Ctx{}, Expect: exp(0)})
+	out = append(out, &Case{Kind: 1, Cond: cmax, TName: "cm", EC: true, Req: Ctx{}, Stored: Ctx{"x": str("18446744073709551615")}, Expect: exp(0)})
+	out = append(out, &Case{Kind: 1, Cond: cu, TName: "cu", EC: true, Req: Ctx{"x": str("9223372036854775807")}, Stored: Ctx{}, Expect: exp(0)})
+	out = append(out, &Case{Kind: 1, Cond: ci, TName: "ci", EC: true, Req: Ctx{"y": str("9223372036854775807")}, Stored: Ctx{}, Expect: exp(0)})
 	out = append(out, &Case{Kind: 1, Cond: c1, TName: "c1", EC: true, Req: Ctx{"y": str("1.00000000000000000000000001")}, Stored: Ctx{}})
 	out = append(out, &Case{Kind: 1, Cond: c1, TName: "c1", EC: true, Req: Ctx{"y": num(1)}, Stored: Ctx{}})
 	out = append(out, &Case{Kind: 1, Cond: c1, TName: "c1", EC: true, Req: Ctx{"y": num(1)}, Stored: Ctx{"y": num(2)}})
